@@ -2,27 +2,38 @@ package main
 
 import (
 	"fmt"
-	"time"
 
 	"github.com/consensys/gnark/frontend"
+	gl "github.com/wormhole-foundation/example-near-light-client/goldilocks"
 
 	"verifharness/engine"
-	"verifharness/inst"
-	"verifharness/props"
+	"verifharness/harn"
 )
 
 func main() {
-	in := inst.Load(inst.All()[0]).Restrict(1)
-	t0 := time.Now()
-	rep, results, err := props.ShadowFixpoint(engine.Native, func() frontend.Circuit { return in.Clone().VerifierCircuit() }, 8)
-	fmt.Println(err, len(results), time.Since(t0))
-	if rep != nil {
-		for _, f := range rep.SortedFindings() {
-			fmt.Println("FINDING", f.Kind, f.Site, f.Detail, rep.FindCount[f.Kind+"|"+f.Site])
+	known := map[int64]engine.U256{}
+	for pass := 0; pass < 6; pass++ {
+		cfg := &engine.ShadowCfg{Known: known, Final: pass == 5}
+		res := harn.Run(engine.Options{Face: engine.Plain, Shadow: cfg, OnHint: func(ev *engine.HintEvent) {
+			if pass == 5 {
+				fmt.Println("hint", ev.Seq, ev.Name, len(ev.Outputs))
+			}
+		}}, func(api frontend.API) error {
+			g := gl.New(api)
+			g.Reduce(gl.NewVariable(uint64(1234567)))
+			return nil
+		})
+		fmt.Println("pass", pass, res.Verdict, "changed", cfg.Report.Changed, "learned", len(cfg.Learned))
+		for k, v := range cfg.Learned {
+			known[k] = v
 		}
-		fmt.Println("sites", len(rep.Sites), "eqsites", len(rep.EqSites))
-		for k, s := range rep.Sites {
-			fmt.Println(k, s.Count, s.MaxObsBits, s.AllowedBits, s.HonBits)
+		if pass == 5 {
+			for k, v := range known {
+				fmt.Println("key", (k&^(1<<62))>>6, k&63, v.BitLen())
+			}
+			for _, f := range cfg.Report.SortedFindings() {
+				fmt.Println("FINDING", f.Kind, f.Site, f.Detail)
+			}
 		}
 	}
 }
